@@ -37,6 +37,7 @@ type replayObj struct {
 	F       int      `json:"fork_height,omitempty"`
 	L       int      `json:"branch_len,omitempty"`
 	Invalid int      `json:"invalid_node,omitempty"`
+	Heavy   []bool   `json:"heavy,omitempty"` // mixed-difficulty world (part b)
 	Hist    []string `json:"hist,omitempty"`
 	Fn      string   `json:"fn,omitempty"`
 }
@@ -89,6 +90,9 @@ func failing(rp replayObj) map[string]string {
 		runDepth(rp.F, rp.L, rep("a-deep/"))
 	case "b":
 		w := newBWorld(rp.Parents, rp.Invalid)
+		if rp.Heavy != nil {
+			w = newBWorldHeavy(rp.Parents, rp.Heavy)
+		}
 		var h []int
 		for _, n := range rp.Hist {
 			h = append(h, evParse(n))
@@ -286,6 +290,7 @@ func main() {
 	type cfg struct {
 		parents []int
 		invalid int
+		heavy   []bool
 	}
 	var cfgs []cfg
 	// reorgFailShape: the invalid node has a descendant two levels below it and
@@ -336,9 +341,29 @@ func main() {
 					continue
 				}
 				seen[c] = true
-				cfgs = append(cfgs, cfg{p, inv})
+				cfgs = append(cfgs, cfg{p, inv, nil})
 			}
 		}
+	}
+	// mixed-difficulty worlds: a light branch of a blocks and a heavy branch of b
+	// blocks, both from genesis: the most-work chain is not the longest one
+	for _, ab := range [][2]int{{2, 1}, {3, 1}, {3, 2}} {
+		a, b := ab[0], ab[1]
+		parents := []int{-1}
+		heavy := []bool{false}
+		for i := 1; i <= a; i++ {
+			parents = append(parents, i-1)
+			heavy = append(heavy, false)
+		}
+		for i := 1; i <= b; i++ {
+			par := a + i - 1
+			if i == 1 {
+				par = 0
+			}
+			parents = append(parents, par)
+			heavy = append(heavy, true)
+		}
+		cfgs = append(cfgs, cfg{parents, -1, heavy})
 	}
 	if only != "" && only != "b" {
 		cfgs = nil
@@ -372,6 +397,10 @@ func main() {
 		}
 		w := newBWorld(c.parents, c.invalid)
 		ck := fmt.Sprintf("b|%s|", markedCanon(c.parents, c.invalid))
+		if c.heavy != nil {
+			w = newBWorldHeavy(c.parents, c.heavy)
+			ck = fmt.Sprintf("b|heavy%v|%v|", c.heavy, c.parents)
+		}
 		res := exploreB(w, r.Expired,
 			func(cs string) { r.Nontrivial(ck + cs) },
 			func(s *sysB, h []int) {
@@ -380,7 +409,7 @@ func main() {
 					names := histNames(h)
 					col.add(kv[0], fmt.Sprintf("%02d/%02d/%s/%v/%d", w.k(), len(h), strings.Join(names, ","), c.parents, c.invalid),
 						fmt.Sprintf("tree parents=%v invalid node=%d history=%s: %s", c.parents, c.invalid, strings.Join(names, ","), kv[1]),
-						replayObj{Part: "b", Parents: c.parents, Invalid: c.invalid, Hist: names, Fn: kv[0]})
+						replayObj{Part: "b", Parents: c.parents, Invalid: c.invalid, Heavy: c.heavy, Hist: names, Fn: kv[0]})
 				}
 			})
 		bmu.Lock()
@@ -422,8 +451,9 @@ func main() {
 		"a_status_pattern":  "node i: i%3==2 not validated, i%4==3 validate-failed, else valid",
 		"deep_fork_heights": fmt.Sprintf("0..%d", F), "deep_branch_lengths": fmt.Sprintf("0..%d", L),
 		"b_max_blocks": K, "b_extra_family": "quick tier: plus the K+1-block configurations in which the invalid block has a descendant two levels below it and a competing branch exists", "b_configurations": len(cfgs),
-		"b_events":  "H_i = ProcessBlockHeader(header_i, BFNone, false), B_i = ProcessBlock(block_i, BFNone); H_i enabled once parent's header or block was delivered and H_i was not (also after the node's own block); B_i enabled once parent's block was delivered",
-		"b_invalid": "one node whose coinbase overpays by 1 satoshi (found at connect time only), every node up to tree symmetry, or none",
+		"b_events":           "H_i = ProcessBlockHeader(header_i, BFNone, false), B_i = ProcessBlock(block_i, BFNone); H_i enabled once parent's header or block was delivered and H_i was not (also after the node's own block); B_i enabled once parent's block was delivered",
+		"b_mixed_difficulty": "3 worlds on a minimum-difficulty network: light branch of 2/3/3 blocks (1 unit of work each) and heavy branch of 1/1/2 blocks (256 units each) from a genesis block at the heavy difficulty",
+		"b_invalid":          "one node whose coinbase overpays by 1 satoshi (found at connect time only), every node up to tree symmetry, or none",
 	})
 
 	// confirm every finding three more times before believing it
